@@ -1,4 +1,4 @@
-"""C02 -- occurrence finding is exact (structural clauses R02.1-R02.22)."""
+"""C02 -- occurrence finding is exact (structural clauses R02.1-R02.24)."""
 from __future__ import annotations
 
 import ast
@@ -687,7 +687,9 @@ def decorators_above_the_statement_rule(ctx, res, rule: str) -> None:
     from .common import with_private_helpers
     fam = list({g.qualname: g for m in fam for g in with_private_helpers(idx, m)}.values())
     if not fam:
-        raise AnalysisError("anchor=get_primary_and_pyname_at: the header-expression test in front of the move to the parent scope not found")
+        # no move to the parent scope at all: that is the header-expression rule's finding, there is no test to examine here
+        res.analysed[f"{rule}:header-expression test"] = "not found (no move to the parent scope)"
+        return
     n = 0
     for g in fam:
         nodes = {t.id for x in walk_local(g.node) if isinstance(x, ast.Assign) and isinstance(x.value, ast.Call) and call_name(x.value) == "get_ast"
